@@ -911,7 +911,8 @@ fn gen_unit(ctx: &mut Ctx, u: &UnitSpec, report: &mut Vec<serde_json::Value>) ->
     let nloops = rw.loops;
     for (si, h) in rw.subst_hits.iter().enumerate() {
         if *h == 0 {
-            die(&format!("anchor-lost: unit {} //@subst pattern `{}` matched no statement", u.name, rw.substs[si].0));
+            // the statement the substitution is about is gone: nothing to substitute; the body is verified as it stands
+            rw.log.add("R13", "subst-unused", format!("pattern `{}` matched no statement", rw.substs[si].0));
         }
     }
     let after_pats_final = rw.after_pats.clone();
